@@ -26,3 +26,45 @@ Qed.
    key order (behaviour index, then name) *)
 Definition entries_of (order : list beh) (d : delta) : list ((beh * bytes) * bytes) :=
   flat_map (fun b => map (fun kv => ((b, fst kv), snd kv)) (dget d b)) order.
+
+(* a `for` loop whose body can fail and re-binds the loop's state *)
+Fixpoint foldM {A S : Type} (f : S -> A -> M S) (l : list A) (s0 : S) : M S :=
+  match l with
+  | [] => ret s0
+  | x :: l' => s1 <- f s0 x ;; foldM f l' s1
+  end.
+
+Lemma bindM_assoc {A B C} (m : M A) (f : A -> M B) (g : B -> M C) s :
+  (y <- (x <- m ;; f x) ;; g y) s = (x <- m ;; y <- f x ;; g y) s.
+Proof. unfold bindM. destruct (m s) as [s1 [a|e]]; reflexivity. Qed.
+
+Lemma bindM_ret_l {A B} (a : A) (f : A -> M B) s : (x <- ret a ;; f x) s = f a s.
+Proof. reflexivity. Qed.
+
+Lemma bindM_ret_r {A} (m : M A) s : (x <- m ;; ret x) s = m s.
+Proof. unfold bindM, ret. destruct (m s) as [s1 [a|e]]; reflexivity. Qed.
+
+Lemma bindM_ext_gen {A B} (m1 m2 : M A) (k1 k2 : A -> M B) s :
+  m1 s = m2 s -> (forall a s', k1 a s' = k2 a s') -> (x <- m1 ;; k1 x) s = (x <- m2 ;; k2 x) s.
+Proof. intros H K. unfold bindM. rewrite H. destruct (m2 s) as [s' [a|e]]; [apply K|reflexivity]. Qed.
+
+Lemma foldM_ext {A S} (f g : S -> A -> M S) l : (forall a x s, f a x s = g a x s) -> forall a s, foldM f l a s = foldM g l a s.
+Proof.
+  intros H. induction l as [|x l IH]; intros a s; cbn [foldM]; [reflexivity|].
+  apply bindM_ext_gen; [apply H|]. intros a' s'. apply IH.
+Qed.
+
+(* a fold whose accumulator is itself a computation = bind, then the monadic fold *)
+Lemma fold_left_foldM {A S} (step : S -> A -> M S) (l : list A) :
+  forall (acc : M S) s,
+    fold_left (fun (acc : M S) (x : A) => d <- acc ;; step d x) l acc s = (d <- acc ;; foldM step l d) s.
+Proof.
+  induction l as [|x l IH]; intros acc s; cbn [fold_left foldM].
+  - now rewrite bindM_ret_r.
+  - rewrite IH. apply bindM_assoc.
+Qed.
+
+Lemma bind_read {B} (b : fs -> bool) (k : bool -> M B) s :
+  (x <- (fun s0 : fs => (s0, Ok (b s0))) ;; k x) s = k (b s) s.
+Proof. reflexivity. Qed.
+
